@@ -344,6 +344,36 @@ Proof.
     split; [apply getitem_fix_ext|apply contains_fix_ext]; exact E.
 Qed.
 
+(* ---- the atomic-store protocol is crash safe only with a RENAME ---------------------------
+   If the "move into place" is a copy (temporary file on another file system: shutil.move
+   falls back to open-truncate + write), the writer is the in-place writer again, and a crash right
+   after the truncation destroys the complete entry that was there: even the tolerant (fixed) reader
+   now reports a missing key where a later process used to find the old entry. *)
+Lemma movex_is_in_place k v : setitem_ops_movex V encode k v = setitem_ops_cur V encode k v.
+Proof. reflexivity. Qed.
+
+Theorem movex_crash_loses_old_entry (h : name) (old v : V) (f : fs) (mr : nat) :
+  roundtrip -> decode [] = None -> is_dir [] f = true -> fs_get [h] f = Some (FFile (encode old)) ->
+  let f1 := crash_at 1 (setitem_ops_movex V encode (KS h) v) f in
+  fst (getitem_fix V decode (S mr) (mkDD [] true f) (KS h)) = Ok old /\
+  fst (getitem_fix V decode (S mr) (mkDD [] true f1) (KS h)) = KeyErr /\
+  fst (contains_fix V decode (S mr) (mkDD [] true f1) (KS h)) = false.
+Proof.
+  intros RT Hd Hroot G f1.
+  assert (Hnd : is_dir [h] f = false) by (unfold is_dir; rewrite G; reflexivity).
+  assert (G1 : fs_get [h] f1 = Some (FFile [])).
+  { unfold f1, crash_at, setitem_ops_movex, mkdir_ops. cbn [kpath length Nat.ltb Nat.leb app firstn run_ops fold_left].
+    unfold run_op. cbn [op_ok parent removelast]. rewrite Hroot, Hnd. cbn. apply fs_get_set_same. }
+  clearbody f1. split; [apply (getitem_fix_complete mr (KS h) f old RT G)|].
+  assert (E : fst (getitem_fix V decode (S mr) (mkDD [] true f1) (KS h)) = KeyErr).
+  { unfold getitem_fix. cbn [mem_get dd_mem dd_dir dd_fs negb kpath]. unfold fs_exists, is_dir. rewrite G1. cbn [negb].
+    assert (R : forall n, retry V decode n [h] f1 = None).
+    { induction n as [|n IH]; cbn; [reflexivity|]. unfold try_load. rewrite G1, Hd. exact IH. }
+    rewrite R. reflexivity. }
+  split; [exact E|]. unfold contains_fix.
+  destruct (getitem_fix V decode (S mr) (mkDD [] true f1) (KS h)) as [r d']. cbn [fst] in E. subst r. reflexivity.
+Qed.
+
 (* the fixed __contains__ and __getitem__ agree: "present" means "can be loaded" *)
 Lemma mem_get_set_same k (c : V) m : mem_get k (mem_set k c m) = Some c.
 Proof.
